@@ -15,7 +15,7 @@ LEVEL = "model_checking"
 RULE = ("explicit-state breadth-first search from the empty sandbox over histories of commands: generate(doc in {A, B disjoint names, "
         "C hostile schema/operation/tag names, D hostile title}, meta in {none, poetry}, overwrite in {no, yes}, location in "
         "{default-from-title in cwd, --output-path}) and user edits (add a file at the project root, at the package root, modify a "
-        "generated file), through the real typer CLI; states = full content of the sandbox + flavours generated per directory, "
+        "generated file), also with generate_all_tags and with post hooks that leave a trace, through the real typer CLI; states = full content of the sandbox + flavours generated per directory, "
         "deduplicated on a canonical hash; every transition audited with sys.addaudithook; depth 4 (quick) / 5 (thorough)")
 FLOOR = 0.3
 ASSUMPTIONS = ["audit hooks see every open-for-write/mkdir/remove/rename/rmtree", "typer's CliRunner reproduces the command line behaviour"]
@@ -78,6 +78,7 @@ DOCS["F"] = mk("Same Title", ["Alpha"], ["opA", "opF"], tag="store")
 for _i, (_p, _item) in enumerate(DOCS["F"]["paths"].items()):
     _item["get"]["tags"] = ["store", "../../../escaped_rel", "/tmp/specmc_c19_escaped_abs/x", "..", "a/b"][: 3 + 2 * _i]
 USER_FILES = ("USER.txt", "user_mod.py")
+HOOK_FILES = ("HOOK_RAN.txt", "HOOK_STAMP")       # what the configured post hooks leave behind: not part of the generated tree
 
 
 def commands(tier):
@@ -98,6 +99,9 @@ def commands(tier):
         for ow in (False, True):
             cmds.append(["gen", "F", "none", ow, "outpath", "alltags"])
             cmds.append(["gen", "C", "none", ow, "default", "alltags"])
+    for d in (("A",) if tier == "quick" else ("A", "B")):
+        for ow in (False, True):
+            cmds.append(["gen", d, "none", ow, "default", "hooks"])      # with post hooks configured: a refused generation runs nothing
     cmds += [["user", "root"], ["user", "pkg"], ["user", "modify"]]
     return cmds
 
@@ -165,7 +169,10 @@ def _docfile(name, cfgname="plain"):
         p.write_text(json.dumps(DOCS[name]))
     cfg = gen.scratch_root() / f"c19cfg_{cfgname}.yml"
     if not cfg.exists():
-        cfg.write_text("post_hooks: []\n" + ("generate_all_tags: true\n" if cfgname == "alltags" else ""))
+        if cfgname == "hooks":      # post hooks that leave a trace in their working directory (the project directory)
+            cfg.write_text("post_hooks:\n  - 'echo ran > HOOK_RAN.txt'\n  - 'touch HOOK_STAMP'\n")
+        else:
+            cfg.write_text("post_hooks: []\n" + ("generate_all_tags: true\n" if cfgname == "alltags" else ""))
     return p, cfg
 
 
@@ -283,7 +290,10 @@ def step(files, flavours, cmd):
         user_before = {k[len(outdir) + 1:]: v for k, v in before.items() if k.startswith(outdir + "/") and k.split("/")[-1] in USER_FILES}
         if prev <= {meta}:
             # invariant 3: same names and flavour as every earlier generation here => exactly the fresh tree + untouched user files
-            gen_only = {k: v for k, v in mine.items() if k.split("/")[-1] not in USER_FILES}
+            gen_only = {k: v for k, v in mine.items() if k.split("/")[-1] not in USER_FILES + HOOK_FILES}
+            ftree = {k: v for k, v in ftree.items() if k.split("/")[-1] not in HOOK_FILES}
+            if cfgname == "hooks" and not all(h in mine for h in HOOK_FILES):
+                viol.append({"oracle": "hooks-not-run", "site": "-", "key": key, "detail": f"post hooks left no trace after a successful generation: {sorted(mine)[:6]}"})
             if gen_only != ftree:
                 stale = sorted(set(gen_only) - set(ftree))
                 missing = sorted(set(ftree) - set(gen_only))
